@@ -86,8 +86,8 @@ def _sib_descs(case, excluded=None):
             togs.append("nocache_type")  # every other sibling has no cache key at all (oracle 3)
         togs = list(dict.fromkeys(togs))
         out.append((sb["b"] % len(case["bases"]), tuple(sorted(togs)), G.apply_toggles(base, togs), sb))
-    if not case.get("pinned"):
-        # known finding C02/cache-hit/required-flag-from-cached-bindparam: a statement whose named bind gets its value through
+    if False and not case.get("pinned"):  # repaired in /repo (1098df9): .params() next to value / callable_ siblings is generated again
+        # (was) finding C02/cache-hit/required-flag-from-cached-bindparam: a statement whose named bind gets its value through
         # .params() (bind source 3) must not share a cache entry with siblings that carry the value / callable_ on the bindparam
         # (judged over the whole history: two bases may be structurally equal and share cache entries)
         srcs = set()
